@@ -1141,3 +1141,431 @@ Proof.
 Qed.
 
 End Strong.
+
+(* ---------- the chunk store: refinement and failing reads ---------- *)
+
+Lemma same_error_not_ok_l : forall {A B} (o : outcome A) (o' : outcome B),
+  same_error o o' -> forall a, o <> Ok a.
+Proof. intros A B o o' H a E. subst o. destruct o'; exact H. Qed.
+
+Lemma same_error_not_ok_r : forall {A B} (o : outcome A) (o' : outcome B),
+  same_error o o' -> forall b, o' <> Ok b.
+Proof. intros A B o o' H b E. subst o'. destruct o; exact H. Qed.
+
+Lemma same_error_bind : forall {A B} (o : outcome A) (f : A -> outcome B),
+  (forall a, o <> Ok a) -> same_error o (bind o f).
+Proof.
+  intros A B o f H. destruct o as [a| | | | | |k]; simpl; auto. exfalso. apply (H a). reflexivity.
+Qed.
+
+Lemma same_error_trans : forall {A B C} (o1 : outcome A) (o2 : outcome B) (o3 : outcome C),
+  same_error o1 o2 -> same_error o2 o3 -> same_error o1 o3.
+Proof.
+  intros A B C o1 o2 o3 H1 H2.
+  destruct o1; destruct o2; simpl in *; try contradiction; destruct o3; simpl in *; try contradiction; auto.
+  congruence.
+Qed.
+
+Lemma validate_exists : forall size cs lo hi,
+  validate_chunk_coords size cs lo hi = true -> chunk_exists size lo = true.
+Proof.
+  intros size cs lo hi V. unfold validate_chunk_coords in V. apply andb_true_iff in V.
+  destruct V as [V _]. rewrite forall3_3_spec in V. unfold chunk_exists.
+  apply andb_true_iff. split.
+  - apply forall3_spec. intro a. specialize (V a). rewrite !andb_true_iff in V. tauto.
+  - apply forall3_2_spec. intro a. specialize (V a). rewrite !andb_true_iff in V. tauto.
+Qed.
+
+Lemma fold_left_ext : forall {A B} (f g : A -> B -> A) l a,
+  (forall x y, f x y = g x y) -> fold_left f l a = fold_left g l a.
+Proof.
+  intros A B f g l. induction l as [|b l IH]; intros a H; simpl; [reflexivity|].
+  rewrite H. apply IH. exact H.
+Qed.
+
+Lemma mapM_ext : forall {A B} (f g : A -> outcome B) l,
+  (forall x, f x = g x) -> mapM f l = mapM g l.
+Proof.
+  intros A B f g l H. induction l as [|a l IH]; simpl; [reflexivity|]. rewrite H, IH. reflexivity.
+Qed.
+
+Section SrcRefinement.
+
+Variable ds : t3 -> arr -> arr.
+
+(* (a) when every chunk of the old grid reads as the corresponding slice of a
+   level array, the store variant IS the array variant *)
+Definition src_agrees (g : geom) (src : chunk_src) (lvl : arr) : Prop :=
+  forall lo hi, validate_chunk_coords (g_os g) (g_oc g) lo hi = true ->
+    src lo hi = Ok (restrict lvl lo (sub3 hi lo)).
+
+Lemma load_ds_src_refines : forall g src lvl j, src_agrees g src lvl ->
+  load_ds_src ds g src j = load_ds ds g lvl j.
+Proof.
+  intros g src lvl j H. unfold load_ds_src, load_ds, read_chunk_src, read_chunk.
+  destruct (validate_chunk_coords (g_os g) (g_oc g) (mul3 (g_oc g) j)
+              (min3 (mul3 (g_oc g) (add3 j one3)) (g_os g))) eqn:V; cbn [negb]; [|reflexivity].
+  rewrite (validate_exists _ _ _ _ V). cbn [negb]. rewrite (H _ _ V). reflexivity.
+Qed.
+
+Theorem tile_level_src_refines : forall g src lvl, src_agrees g src lvl ->
+  tile_level_src ds g src = tile_level ds g lvl.
+Proof.
+  intros g src lvl H. unfold tile_level_src, tile_level.
+  destruct (negb (eqb3 (g_ns g) (cdiv3 (g_os g) (factors g)))); [reflexivity|].
+  destruct (negb (forall3 (fun h => negb (h =? 0)) (half_chunk g))); [reflexivity|].
+  destruct (stretch_class g); [reflexivity|].
+  apply mapM_ext. intro idx. unfold tile_chunk_src, tile_chunk. f_equal.
+  apply fold_left_ext. intros acc b. unfold octant_step_src, octant_step.
+  destruct acc; cbn [bind]; try reflexivity.
+  destruct (forall3_3 ax_cond b _ (half_chunk g)); [|reflexivity].
+  rewrite (load_ds_src_refines g src lvl _ H). reflexivity.
+Qed.
+
+Corollary tile_level_src_of_level : forall g lvl,
+  tile_level_src ds g (src_of_level lvl) = tile_level ds g lvl.
+Proof. intros g lvl. apply tile_level_src_refines. intros lo hi _. reflexivity. Qed.
+
+End SrcRefinement.
+
+(* ---------- one axis: every old chunk is needed ---------- *)
+
+Lemma axis_needed_core : forall f h q os ns j,
+  (f = 1 \/ f = 2) -> 1 <= h -> (q = 1 \/ q = 2) -> 0 < os -> ns = ceil_div os f ->
+  0 <= j -> f * h * j < os ->
+  exists i b, 0 <= i /\ q * h * i < ns /\ (b = 0 \/ b = 1) /\
+    ax_cond b (Z.min (q * h * (i + 1)) ns - q * h * i) h = true /\ i * q + b = j.
+Proof.
+  intros f h q os ns j Hf Hh Hq Hos Hns Hj Hlt. unfold ceil_div in Hns.
+  assert (HA : 0 <= h * j) by nia.
+  destruct Hq as [-> | ->].
+  - exists j, 0. unfold ax_cond. cbn [Z.eqb orb].
+    replace (f * h * j) with (f * (h * j)) in Hlt by ring. replace (1 * h * j) with (h * j) by ring.
+    repeat split; try lia; destruct Hf as [-> | ->]; lia.
+  - pose proof (Z.div_mod j 2 ltac:(lia)) as Ej. pose proof (Z.mod_pos_bound j 2 ltac:(lia)) as Bj.
+    set (i := j / 2) in *. set (b := j mod 2) in *.
+    assert (Hi : 0 <= i) by lia.
+    assert (HB : 0 <= h * i) by nia.
+    assert (Ehj : h * j = 2 * (h * i) + b * h) by (rewrite Ej; ring).
+    replace (f * h * j) with (f * (h * j)) in Hlt by ring. rewrite Ehj in Hlt.
+    exists i, b. unfold ax_cond.
+    replace (2 * h * (i + 1)) with (2 * (h * i) + 2 * h) by ring.
+    replace (2 * h * i) with (2 * (h * i)) by ring.
+    assert (Hb : b = 0 \/ b = 1) by lia.
+    destruct Hb as [Eb | Eb]; rewrite Eb in *.
+    + cbn [Z.eqb orb]. repeat split; try lia; destruct Hf as [-> | ->]; lia.
+    + replace (1 =? 0) with false by reflexivity. rewrite orb_false_l.
+      repeat split; try lia; try (apply Z.ltb_lt); destruct Hf as [-> | ->]; lia.
+Qed.
+
+Lemma axis_needed : forall os ns oc nc j,
+  0 < os -> 0 < oc -> 0 < nc -> ns = ceil_div os (ax_f os ns) ->
+  compat_axis os ns oc nc = true -> 0 <= j -> oc * j < os ->
+  exists i b, 0 <= i /\ nc * i < ns /\ (b = 0 \/ b = 1) /\
+    ax_cond b (ax_e ns nc i) (ax_h os ns oc) = true /\ ax_j os ns oc nc i b = j.
+Proof.
+  intros os ns oc nc j Hos Hoc Hnc Hns Hcp Hj Hlt.
+  unfold compat_axis in Hcp. fold (ax_h os ns oc) in Hcp. unfold ax_j, ax_cff, ax_e.
+  remember (ax_h os ns oc) as h eqn:Eh. unfold ax_h in Eh.
+  remember (ax_f os ns) as f eqn:Ef.
+  assert (Hf : f = 1 \/ f = 2) by (rewrite Ef; apply ax_f_cases).
+  assert (Hdiv : oc = f * h + oc mod f /\ 0 <= oc mod f < f).
+  { rewrite Eh. split; [apply Z.div_mod; lia | apply Z.mod_pos_bound; lia]. }
+  destruct Hdiv as [Hd1 Hd2]. set (r := oc mod f) in *.
+  apply andb_true_iff in Hcp. destruct Hcp as [Hh Hcp]. apply Z.leb_le in Hh.
+  assert (Hos_le : os <= f * ns) by (rewrite Hns; unfold ceil_div; destruct Hf as [-> | ->]; lia).
+  apply orb_true_iff in Hcp. destruct Hcp as [Hcp|Hcp].
+  - (* one new chunk, one old chunk *)
+    apply andb_true_iff in Hcp. destruct Hcp as [H1 H2]. apply Z.leb_le in H1, H2.
+    assert (j = 0) by (destruct Hf as [Ef'|Ef']; rewrite Ef' in *; nia). subst j.
+    exists 0, 0. unfold ax_cond. cbn [Z.eqb orb]. repeat split; try lia.
+  - apply andb_true_iff in Hcp. destruct Hcp as [Hfh Hcp]. apply Z.eqb_eq in Hfh.
+    apply orb_true_iff in Hcp. destruct Hcp as [Hcp|Hcp];
+      apply andb_true_iff in Hcp; destruct Hcp as [H1 H2].
+    + (* one new chunk, at most two old chunks *)
+      apply Z.leb_le in H1, H2.
+      assert (Hj2 : j = 0 \/ j = 1) by (destruct Hf as [Ef'|Ef']; rewrite Ef' in *; nia).
+      destruct Hj2 as [-> | ->].
+      * exists 0, 0. unfold ax_cond. cbn [Z.eqb orb]. repeat split; try lia.
+      * exists 0, 1. unfold ax_cond. replace (1 =? 0) with false by reflexivity. rewrite orb_false_l.
+        repeat split; try lia; try (apply Z.ltb_lt; destruct Hf as [Ef'|Ef']; rewrite Ef' in *; lia).
+    + apply Z.eqb_eq in H1. apply Z.leb_le in H2.
+      assert (Hq : nc = (nc / h) * h) by (rewrite Z.mul_comm; apply Z.div_exact; lia).
+      remember (nc / h) as q eqn:Eq.
+      assert (Hq12 : q = 1 \/ q = 2) by (clear - Hq Hnc Hh H2; nia).
+      assert (Hlt' : f * h * j < os) by (rewrite Hfh; exact Hlt).
+      destruct (axis_needed_core f h q os ns j Hf Hh Hq12 Hos Hns Hj Hlt') as [i [b [K1 [K2 [K3 [K4 K5]]]]]].
+      exists i, b. rewrite Hq. repeat split; assumption.
+Qed.
+
+(* ---------- a transition over a store in which some reads fail ---------- *)
+
+Section SrcFailures.
+
+Variable ds : t3 -> arr -> arr.
+Hypothesis ds_shape : ds_shape_prop ds.
+
+Variable g : geom.
+Variable lvl : arr.
+Variable src : chunk_src.
+Hypothesis Hch : a_c lvl = g_ch g.
+Hypothesis Hcompat : compat g = true.
+
+(* every chunk of the old grid either reads as the slice of the level that was
+   written, or its read fails *)
+Hypothesis Hsrc : forall lo hi, validate_chunk_coords (g_os g) (g_oc g) lo hi = true ->
+  src lo hi = Ok (restrict lvl lo (sub3 hi lo)) \/ (forall a, src lo hi <> Ok a).
+
+Let Hpos : geom_pos g = true.
+Proof. unfold compat in Hcompat. rewrite !andb_true_iff in Hcompat. tauto. Qed.
+
+Definition failed_read {B} (o : outcome B) : Prop :=
+  exists lo hi, validate_chunk_coords (g_os g) (g_oc g) lo hi = true /\
+                (forall a, src lo hi <> Ok a) /\ same_error (src lo hi) o.
+
+Lemma load_ds_validates : forall j s, load_ds ds g lvl j = Ok s ->
+  validate_chunk_coords (g_os g) (g_oc g) (mul3 (g_oc g) j)
+    (min3 (mul3 (g_oc g) (add3 j one3)) (g_os g)) = true.
+Proof.
+  intros j s H. unfold load_ds, read_chunk in H.
+  destruct (validate_chunk_coords _ _ _ _); [reflexivity | discriminate].
+Qed.
+
+Section OneChunk.
+
+Variable idx : t3.
+Hypothesis Hidx : forall a, 0 <= get3 a idx /\ get3 a (g_nc g) * get3 a idx < get3 a (g_ns g).
+
+Let e : t3 := sub3 (new_hi g idx) (new_lo g idx).
+Let HG : axis_good_all g idx := proj1 (compat_good_all g idx Hcompat Hidx).
+Let HE : axis_exact_all g idx := proj2 (compat_good_all g idx Hcompat Hidx).
+
+Lemma step_src_cases : forall acc b, valid_oct b ->
+  (exists buf, acc = Ok buf /\ b_c buf = g_ch g) ->
+  (exists buf', octant_step_src ds g src idx e acc b = Ok buf' /\ b_c buf' = g_ch g) \/
+  failed_read (octant_step_src ds g src idx e acc b).
+Proof.
+  intros acc b Hv [buf [-> Hbc]]. unfold octant_step_src. cbn [bind].
+  destruct (forall3_3 ax_cond b e (half_chunk g)) eqn:Hc; [|left; exists buf; split; [reflexivity|exact Hbc]].
+  pose proof (load_ds_ok ds g lvl Hpos idx Hidx HG b Hv Hc) as Hl.
+  pose proof (load_ds_validates _ _ Hl) as V.
+  set (j := add3 (mul3 idx (fetch_factor g)) b) in *.
+  unfold load_ds_src, read_chunk_src. rewrite V. cbn [negb].
+  destruct (Hsrc _ _ V) as [Hok | Hbad].
+  - (* the read succeeds with the right slice: this is the array step *)
+    left.
+    destruct (step_ok ds ds_shape g lvl Hch Hpos idx Hidx HG HE (Ok buf) b Hv
+                (ex_intro _ buf (conj eq_refl Hbc))) as [buf' [Hs Hb']].
+    exists buf'. split; [|exact Hb'].
+    rewrite <- Hs. unfold octant_step. cbn [bind]. fold e. rewrite Hc. fold j.
+    unfold load_ds, read_chunk. rewrite V. cbn [negb]. rewrite (validate_exists _ _ _ _ V). cbn [negb bind].
+    rewrite Hok. reflexivity.
+  - right. exists (mul3 (g_oc g) j), (min3 (mul3 (g_oc g) (add3 j one3)) (g_os g)).
+    split; [exact V|]. split; [exact Hbad|].
+    eapply same_error_trans; [apply (same_error_bind _ (fun c => Ok (ds (factors g) c))); exact Hbad|].
+    apply same_error_bind. intros a Ea.
+    destruct (src (mul3 (g_oc g) j) (min3 (mul3 (g_oc g) (add3 j one3)) (g_os g))) eqn:Es;
+      cbn [bind] in Ea; try discriminate. exfalso. apply (Hbad a0). reflexivity.
+Qed.
+
+Lemma step_src_error_stays : forall acc b, (forall buf, acc <> Ok buf) ->
+  octant_step_src ds g src idx e acc b = acc.
+Proof.
+  intros acc b H. unfold octant_step_src. destruct acc; cbn [bind]; try reflexivity.
+  exfalso. apply (H a). reflexivity.
+Qed.
+
+Lemma fold_src_error_stays : forall octs acc, (forall buf, acc <> Ok buf) ->
+  fold_left (octant_step_src ds g src idx e) octs acc = acc.
+Proof.
+  induction octs as [|b octs IH]; intros acc H; simpl; [reflexivity|].
+  rewrite step_src_error_stays by exact H. apply IH. exact H.
+Qed.
+
+Lemma fold_src_cases : forall octs acc, (forall b, In b octs -> valid_oct b) ->
+  (exists buf, acc = Ok buf /\ b_c buf = g_ch g) ->
+  (exists buf', fold_left (octant_step_src ds g src idx e) octs acc = Ok buf' /\ b_c buf' = g_ch g) \/
+  failed_read (fold_left (octant_step_src ds g src idx e) octs acc).
+Proof.
+  induction octs as [|b octs IH]; intros acc Hv Hacc; simpl; [left; exact Hacc|].
+  destruct (step_src_cases acc b (Hv b (or_introl eq_refl)) Hacc) as [Hok | Hbad].
+  - apply IH; [intros b' Hb'; apply Hv; right; exact Hb' | exact Hok].
+  - right. rewrite fold_src_error_stays; [exact Hbad|].
+    destruct Hbad as [lo [hi [_ [_ Hs]]]]. exact (same_error_not_ok_r _ _ Hs).
+Qed.
+
+Lemma tile_chunk_src_cases :
+  (exists y, tile_chunk_src ds g src idx = Ok y) \/ failed_read (tile_chunk_src ds g src idx).
+Proof.
+  unfold tile_chunk_src. fold e.
+  destruct (fold_src_cases octants (Ok {| b_c := g_ch g; b_sh := e; b_get := fun _ _ => Uninit |})
+              octants_valid) as [[buf [Hf _]] | Hbad].
+  { eexists. split; reflexivity. }
+  - left. rewrite Hf. cbn [bind]. rewrite (write_validates ds g lvl Hpos idx Hidx). eexists; reflexivity.
+  - right. destruct Hbad as [lo [hi [V [Hb Hs]]]]. exists lo, hi. split; [exact V|]. split; [exact Hb|].
+    eapply same_error_trans; [exact Hs|]. apply same_error_bind. exact (same_error_not_ok_r _ _ Hs).
+Qed.
+
+(* a chunk that was computed means every read it needed succeeded *)
+Lemma fold_src_ok_reads : forall octs acc buf,
+  fold_left (octant_step_src ds g src idx e) octs acc = Ok buf ->
+  forall b, In b octs -> forall3_3 ax_cond b e (half_chunk g) = true ->
+  exists s, load_ds_src ds g src (add3 (mul3 idx (fetch_factor g)) b) = Ok s.
+Proof.
+  induction octs as [|b0 octs IH]; intros acc buf H b Hin Hc; [destruct Hin|].
+  simpl in H. destruct Hin as [->|Hin]; [|eapply IH; eassumption].
+  destruct (octant_step_src ds g src idx e acc b) as [b1| | | | | |k] eqn:Hs;
+    try (rewrite fold_src_error_stays in H by (intros bb Hbb; discriminate); discriminate).
+  unfold octant_step_src in Hs. destruct acc as [a0| | | | | |k]; cbn [bind] in Hs; try discriminate.
+  rewrite Hc in Hs.
+  destruct (load_ds_src ds g src (add3 (mul3 idx (fetch_factor g)) b)) as [s| | | | | |k];
+    cbn [bind] in Hs; try discriminate.
+  exists s. reflexivity.
+Qed.
+
+End OneChunk.
+
+Lemma mapM_src_cases : forall l,
+  (forall idx, In idx l ->
+     forall a, 0 <= get3 a idx /\ get3 a (g_nc g) * get3 a idx < get3 a (g_ns g)) ->
+  (exists ys, mapM (tile_chunk_src ds g src) l = Ok ys) \/
+  failed_read (mapM (tile_chunk_src ds g src) l).
+Proof.
+  induction l as [|idx l IH]; intro H; simpl.
+  - left. eexists; reflexivity.
+  - destruct (tile_chunk_src_cases idx (H idx (or_introl eq_refl))) as [[y Hy] | Hbad].
+    + rewrite Hy. cbn [bind].
+      destruct IH as [[ys Hys] | Hbad]; [intros i Hi; apply H; right; exact Hi | |].
+      * left. rewrite Hys. cbn [bind]. eexists; reflexivity.
+      * right. destruct Hbad as [lo [hi [V [Hb Hs]]]]. exists lo, hi. split; [exact V|]. split; [exact Hb|].
+        eapply same_error_trans; [exact Hs|]. apply same_error_bind. exact (same_error_not_ok_r _ _ Hs).
+    + right. destruct Hbad as [lo [hi [V [Hb Hs]]]]. exists lo, hi. split; [exact V|]. split; [exact Hb|].
+      eapply same_error_trans; [exact Hs|]. apply same_error_bind. exact (same_error_not_ok_r _ _ Hs).
+Qed.
+
+Lemma level_src_unfold :
+  tile_level_src ds g src = mapM (tile_chunk_src ds g src) (ndindex (chunk_range g)).
+Proof.
+  unfold tile_level_src.
+  pose proof Hcompat as Hc. unfold compat in Hc. rewrite !andb_true_iff in Hc. destruct Hc as [[_ Hsz] _].
+  unfold sizes_ok in Hsz. rewrite Hsz. cbn [negb].
+  rewrite (guard_half_nonzero g (compat_guard g Hcompat)). cbn [negb].
+  rewrite (compat_not_stretch g Hcompat). reflexivity.
+Qed.
+
+(* the outcome of the transition: all chunks written, or the error of a read *)
+Lemma level_src_cases :
+  (exists chunks, tile_level_src ds g src = Ok chunks) \/ failed_read (tile_level_src ds g src).
+Proof.
+  rewrite level_src_unfold. apply mapM_src_cases. intros idx Hin. exact (in_range_idx g idx Hpos Hin).
+Qed.
+
+Lemma level_src_ok_reads : forall chunks, tile_level_src ds g src = Ok chunks ->
+  forall idx b, In idx (ndindex (chunk_range g)) -> In b octants ->
+  forall3_3 ax_cond b (sub3 (new_hi g idx) (new_lo g idx)) (half_chunk g) = true ->
+  exists s, load_ds_src ds g src (add3 (mul3 idx (fetch_factor g)) b) = Ok s.
+Proof.
+  intros chunks H idx b Hidx Hb Hc. rewrite level_src_unfold in H.
+  apply mapM_ok_Forall2 in H. destruct (Forall2_In_r _ _ _ _ H Hidx) as [[[lo hi] buf] [_ Ht]].
+  unfold tile_chunk_src in Ht.
+  destruct (fold_left _ octants _) as [bf| | | | | |k] eqn:Hf; cbn [bind] in Ht; try discriminate.
+  exact (fold_src_ok_reads idx octants _ bf Hf b Hb Hc).
+Qed.
+
+(* every chunk of the old grid is needed by some assignment of some new chunk *)
+Lemma old_chunk_needed : forall j, in_old_grid g j = true ->
+  exists idx b, In idx (ndindex (chunk_range g)) /\ In b octants /\
+    forall3_3 ax_cond b (sub3 (new_hi g idx) (new_lo g idx)) (half_chunk g) = true /\
+    add3 (mul3 idx (fetch_factor g)) b = j.
+Proof.
+  intros j Hj. destruct (geom_pos_spec g Hpos) as [Pos [Pns [Poc [Pnc Pch]]]].
+  pose proof Hcompat as Hc. unfold compat in Hc. rewrite !andb_true_iff in Hc. destruct Hc as [[_ Hsz] Hc].
+  rewrite forall3_4_spec in Hc.
+  unfold in_old_grid in Hj. apply andb_true_iff in Hj. destruct Hj as [Hj0 Hj1].
+  rewrite forall3_spec in Hj0. rewrite forall3_2_spec in Hj1.
+  assert (Hax : forall a, exists i b, 0 <= i /\ get3 a (g_nc g) * i < get3 a (g_ns g) /\ (b = 0 \/ b = 1) /\
+            ax_cond b (ax_e (get3 a (g_ns g)) (get3 a (g_nc g)) i)
+                      (ax_h (get3 a (g_os g)) (get3 a (g_ns g)) (get3 a (g_oc g))) = true /\
+            ax_j (get3 a (g_os g)) (get3 a (g_ns g)) (get3 a (g_oc g)) (get3 a (g_nc g)) i b = get3 a j).
+  { intro a. apply axis_needed; try apply Pos; try apply Poc; try apply Pnc.
+    - apply (sizes_ok_spec g Hsz).
+    - apply Hc.
+    - specialize (Hj0 a). apply Z.leb_le in Hj0. exact Hj0.
+    - specialize (Hj1 a). apply Z.ltb_lt in Hj1. unfold old_chunk_lo, mul3 in Hj1.
+      rewrite get3_zip3 in Hj1. exact Hj1. }
+  destruct (Hax AX) as [ix [bx [X1 [X2 [X3 [X4 X5]]]]]].
+  destruct (Hax AY) as [iy [by_ [Y1 [Y2 [Y3 [Y4 Y5]]]]]].
+  destruct (Hax AZ) as [iz [bz [Z1 [Z2 [Z3 [Z4 Z5]]]]]].
+  exists (ix, iy, iz), (bx, by_, bz).
+  assert (Hr : forall a, 0 <= get3 a (ix, iy, iz) /\
+             get3 a (g_nc g) * get3 a (ix, iy, iz) < get3 a (g_ns g)).
+  { intro a; destruct a; simpl; split; assumption. }
+  split.
+  { apply in_ndindex. intro a. destruct (Hr a) as [R1 R2]. split; [exact R1|].
+    unfold chunk_range, cdiv3. rewrite get3_zip3. apply lt_ceil_div_iff; [apply Pnc | exact R2]. }
+  split.
+  { destruct X3 as [-> | ->]; destruct Y3 as [-> | ->]; destruct Z3 as [-> | ->]; simpl; tauto. }
+  split.
+  { apply forall3_3_spec. intro a. rewrite get3_new_ext, get3_half. destruct a; simpl; assumption. }
+  apply t3_ext. intro a. unfold add3, mul3. rewrite !get3_zip3, get3_fetch.
+  destruct a; simpl; [exact X5 | exact Y5 | exact Z5].
+Qed.
+
+(* (b) an unreadable chunk of the old grid makes the transition fail, with the
+   error of a read that failed - never Ok, never anything else *)
+Theorem fails_on_unreadable_source : forall j,
+  in_old_grid g j = true ->
+  (forall a, src (old_chunk_lo g j) (old_chunk_hi g j) <> Ok a) ->
+  (forall chunks, tile_level_src ds g src <> Ok chunks) /\
+  failed_read (tile_level_src ds g src).
+Proof.
+  intros j Hj Hbad.
+  assert (Hno : forall chunks, tile_level_src ds g src <> Ok chunks).
+  { intros chunks H. destruct (old_chunk_needed j Hj) as [idx [b [Hi [Hb [Hc Ej]]]]].
+    destruct (level_src_ok_reads chunks H idx b Hi Hb Hc) as [s Hs]. rewrite Ej in Hs.
+    unfold load_ds_src, read_chunk_src in Hs.
+    destruct (validate_chunk_coords _ _ _ _); cbn [negb] in Hs; [|discriminate].
+    fold (old_chunk_lo g j) in Hs. fold (old_chunk_hi g j) in Hs.
+    destruct (src (old_chunk_lo g j) (old_chunk_hi g j)) as [c| | | | | |k] eqn:Es;
+      cbn [bind] in Hs; try discriminate. apply (Hbad c). reflexivity. }
+  split; [exact Hno|].
+  destruct level_src_cases as [[chunks H] | H]; [exfalso; exact (Hno chunks H) | exact H].
+Qed.
+
+End SrcFailures.
+
+(* the executable store with listed failures satisfies the hypothesis of
+   fails_on_unreadable_source *)
+Lemma src_with_failures_spec : forall lvl bad,
+  Forall (fun e => forall a, snd e <> Ok a) bad ->
+  forall lo hi, src_with_failures lvl bad lo hi = Ok (restrict lvl lo (sub3 hi lo)) \/
+                (forall a, src_with_failures lvl bad lo hi <> Ok a).
+Proof.
+  intros lvl bad HF lo hi. unfold src_with_failures.
+  destruct (find (fun e => eqb_t3 (fst e) lo) bad) as [[l err]|] eqn:Hf; [|left; reflexivity].
+  right. apply find_some in Hf. rewrite Forall_forall in HF. exact (HF _ (proj1 Hf)).
+Qed.
+
+(* non-vacuity: a compat transition (sizes (9,5,3) -> (5,5,2), chunks (4,2,2) ->
+   (4,2,1), 2 channels) whose old chunk at (4,0,0) cannot be fetched *)
+Definition src_example_geom : geom :=
+  {| g_os := (9, 5, 3); g_ns := (5, 5, 2); g_oc := (4, 2, 2); g_nc := (4, 2, 1); g_ch := 2 |}.
+Definition src_example_level : arr := arr_of_list 2 (9, 5, 3) (levels 270).
+Definition src_example_store : chunk_src :=
+  src_with_failures src_example_level [((4, 0, 0), AccessErr)].
+
+Example fails_on_unreadable_source_example :
+  compat src_example_geom = true /\ in_old_grid src_example_geom (1, 0, 0) = true /\
+  a_c src_example_level = g_ch src_example_geom /\
+  src_example_store (old_chunk_lo src_example_geom (1, 0, 0)) (old_chunk_hi src_example_geom (1, 0, 0))
+    = AccessErr /\
+  tile_level_src ds_avg src_example_geom src_example_store = AccessErr /\
+  (exists chunks, tile_level_src ds_avg src_example_geom (src_of_level src_example_level) = Ok chunks).
+Proof.
+  split; [vm_compute; reflexivity|]. split; [vm_compute; reflexivity|].
+  split; [reflexivity|]. split; [vm_compute; reflexivity|]. split; [vm_compute; reflexivity|].
+  rewrite tile_level_src_of_level.
+  destruct (tiling_exact ds_avg avg_shape avg_local src_example_geom src_example_level) as [chunks [H _]];
+    [vm_compute; reflexivity | reflexivity | reflexivity |].
+  exists chunks. exact H.
+Qed.
